@@ -43,14 +43,75 @@ func launcherHelper() {
 	r.SyncFunc = func(pid int) error {
 		fmt.Printf("%d\n", pid)
 		os.Stdout.Sync()
-		select {}
+		for { // never returns (a bare select{} would end the process at once: the runtime reports a deadlock)
+			time.Sleep(time.Hour)
+		}
 	}
 	r.Start()
 	os.Exit(3)
 }
 
+// cgroup2Root is a cgroup v2 hierarchy in which the harness may create directories (no controllers are needed: the
+// directories only serve as the target of clone-into-cgroup and as a membership list)
+func cgroup2Root() string {
+	cands := []string{os.Getenv("VERIF_CGROUP2"), "/sys/fs/cgroup/unified", "/sys/fs/cgroup"}
+	for _, d := range cands {
+		if d == "" {
+			continue
+		}
+		var st unix.Statfs_t
+		if unix.Statfs(d, &st) == nil && st.Type == unix.CGROUP2_SUPER_MAGIC {
+			return d
+		}
+	}
+	return ""
+}
+
+func cgroupProcs(dir string) []int {
+	b, err := os.ReadFile(filepath.Join(dir, "cgroup.procs"))
+	if err != nil {
+		return nil
+	}
+	out := []int{}
+	for _, f := range strings.Fields(string(b)) {
+		var n int
+		fmt.Sscan(f, &n)
+		out = append(out, n)
+	}
+	return out
+}
+
+// procFacts: what /proc says about pid: image, state, parent, pid in every pid namespace it is visible in
+func procFacts(pid int, o map[string]any, initPid int, initExe string) {
+	exe, _ := os.Readlink(fmt.Sprintf("/proc/%d/exe", pid))
+	o["exe_is_target"] = strings.HasSuffix(exe, "probe_target")
+	o["exe_is_launcher"] = exe != "" && exe == initExe
+	st, _ := os.ReadFile(fmt.Sprintf("/proc/%d/stat", pid))
+	if i := strings.LastIndexByte(string(st), ')'); i >= 0 {
+		if f := strings.Fields(string(st[i+1:])); len(f) > 1 {
+			o["state"] = f[0]
+			o["ppid_is_init"] = f[1] == fmt.Sprint(initPid)
+		}
+	}
+	status, _ := os.ReadFile(fmt.Sprintf("/proc/%d/status", pid))
+	nspid := []int{}
+	for _, l := range strings.Split(string(status), "\n") {
+		if strings.HasPrefix(l, "NSpid:") {
+			for _, f := range strings.Fields(l[6:]) {
+				var n int
+				fmt.Sscan(f, &n)
+				nspid = append(nspid, n)
+			}
+		}
+	}
+	o["nspid"] = nspid
+}
+
 // containerHist: a history of launches in ONE container environment, with the callback before or after exec, succeeding or refusing,
-// under a live or an already cancelled context; what the callback finds, and whether the target ran
+// under a live or an already cancelled context; what the callback finds, and whether the target ran.  Each launch may use the further
+// options of the launch request: a cgroup v2 directory descriptor (the child is cloned into it), a descriptor that is not a cgroup
+// directory (the clone fails), the executable by descriptor, a filter, resource limits, a longer descriptor list; the callback may
+// wait before it looks (a target that was not held back has time to run)
 func containerHist(c map[string]any, scratch string) map[string]any {
 	env, err := hx.NewEnv(scratch, nil)
 	if err != nil {
@@ -58,8 +119,10 @@ func containerHist(c map[string]any, scratch string) map[string]any {
 	}
 	defer env.Destroy()
 	initPid := container.InitPidVerif(env)
+	initExe, _ := os.Readlink(fmt.Sprintf("/proc/%d/exe", initPid))
 	null, _ := os.OpenFile("/dev/null", os.O_RDWR, 0)
 	defer null.Close()
+	cgRoot := cgroup2Root()
 	outs := []any{}
 	for i, raw := range c["launches"].([]any) {
 		l := raw.(map[string]any)
@@ -67,16 +130,77 @@ func containerHist(c map[string]any, scratch string) map[string]any {
 		hostMarker := fmt.Sprintf("/proc/%d/root%s", initPid, marker)
 		os.Remove(hostMarker)
 		o := map[string]any{"calls": 0}
-		p := container.ExecveParam{Args: []string{"/vb/probe_target", "mark", marker}, Env: []string{}, Files: []uintptr{null.Fd(), null.Fd(), null.Fd()},
+		nfiles := 3
+		if n := int(hx.Int(l["files_n"])); n > 3 {
+			nfiles = n
+		}
+		files := make([]uintptr, nfiles)
+		for k := range files {
+			files[k] = null.Fd()
+		}
+		p := container.ExecveParam{Args: []string{"/vb/probe_target", "mark", marker}, Env: []string{}, Files: files,
 			SyncAfterExec: l["sync_after"] == true}
+		var closers []func()
+		cgDir := ""
+		switch l["cgroup"] {
+		case "dir":
+			if cgRoot == "" {
+				o["cgroup_unavailable"] = "no cgroup v2 hierarchy"
+				break
+			}
+			d, derr := os.MkdirTemp(cgRoot, "verif_c07_")
+			if derr != nil {
+				o["cgroup_unavailable"] = derr.Error()
+				break
+			}
+			f, ferr := os.Open(d)
+			if ferr != nil {
+				os.Remove(d)
+				o["cgroup_unavailable"] = ferr.Error()
+				break
+			}
+			cgDir = d
+			p.CgroupFD = f.Fd()
+			closers = append(closers, func() { f.Close() })
+		case "bad":
+			f, _ := os.Open("/dev/null")
+			p.CgroupFD = f.Fd()
+			closers = append(closers, func() { f.Close() })
+		}
+		if l["exec_fd"] == true {
+			f, ferr := os.Open(hx.Target())
+			if ferr != nil {
+				return map[string]any{"harness_err": ferr.Error()}
+			}
+			p.ExecFile = f.Fd()
+			closers = append(closers, func() { f.Close() })
+		}
+		if l["seccomp"] == true {
+			p.Seccomp = hx.AllowAll()
+		}
+		if l["rlimits"] == true {
+			p.RLimits = []rlimit.RLimit{{Res: syscall.RLIMIT_STACK, Rlim: syscall.Rlimit{Cur: 8 << 20, Max: 8 << 20}},
+				{Res: syscall.RLIMIT_NOFILE, Rlim: syscall.Rlimit{Cur: 256, Max: 256}},
+				{Res: syscall.RLIMIT_CORE, Rlim: syscall.Rlimit{Cur: 0, Max: 0}}}
+		}
+		delay := time.Duration(hx.Int(l["cb_delay_ms"])) * time.Millisecond
 		if l["cb"] != "none" {
 			p.SyncFunc = func(pid int) error {
 				o["calls"] = o["calls"].(int) + 1
+				time.Sleep(delay)
 				o["pid_is_init"] = pid == initPid
-				exe, _ := os.Readlink(fmt.Sprintf("/proc/%d/exe", pid))
-				o["exe_is_target"] = strings.HasSuffix(exe, "probe_target")
+				procFacts(pid, o, initPid, initExe)
 				_, merr := os.Stat(hostMarker)
 				o["marker_at_callback"] = merr == nil
+				if cgDir != "" {
+					members := cgroupProcs(cgDir)
+					o["cgroup_members_at_callback"] = members
+					in := false
+					for _, m := range members {
+						in = in || m == pid
+					}
+					o["pid_in_cgroup"] = in
+				}
 				if l["cb"] == "fail" {
 					return errors.New("callback refuses")
 				}
@@ -89,10 +213,25 @@ func containerHist(c map[string]any, scratch string) map[string]any {
 		}
 		res := env.Execve(ctx, p)
 		cancel()
+		if cgDir != "" {
+			// every process of the launch was killed and reaped when the call returned: nobody is a member any more
+			o["cgroup_members_after"] = cgroupProcs(cgDir)
+		}
 		time.Sleep(5 * time.Millisecond)
 		_, merr := os.Stat(hostMarker)
 		o["target_ran"] = merr == nil
 		o["status"], o["error"] = int(res.Status), res.Error
+		for _, f := range closers {
+			f()
+		}
+		if cgDir != "" {
+			for k := 0; k < 200; k++ {
+				if os.Remove(cgDir) == nil {
+					break
+				}
+				time.Sleep(10 * time.Millisecond)
+			}
+		}
 		outs = append(outs, o)
 	}
 	perr := env.Ping()
